@@ -364,3 +364,101 @@ impl Cfg {
         (total + self.nshards - 1) / self.nshards
     }
 }
+
+
+// ---------------------------------------------------------------------------------------------
+// Source dictionary: every integer literal that occurs in the emulator's source (the tree the
+// harness was built from). Values a program compares against or masks with are the places where
+// behaviour can change; random and boundary pools cannot find a 32-bit constant by chance, the
+// source names it. Used as an extra value pool (operands, register contents, addresses).
+
+static DICT: std::sync::OnceLock<Vec<u32>> = std::sync::OnceLock::new();
+
+fn scan_literals(text: &str, out: &mut HashSet<u32>) {
+    let b = text.as_bytes();
+    let mut i = 0;
+    while i < b.len() {
+        let c = b[i];
+        if c.is_ascii_digit() && (i == 0 || !(b[i - 1].is_ascii_alphanumeric() || b[i - 1] == b'_')) {
+            let (radix, mut j) = if c == b'0' && i + 1 < b.len() && (b[i + 1] | 0x20) == b'x' {
+                (16, i + 2)
+            } else if c == b'0' && i + 1 < b.len() && (b[i + 1] | 0x20) == b'b' {
+                (2, i + 2)
+            } else if c == b'0' && i + 1 < b.len() && (b[i + 1] | 0x20) == b'o' {
+                (8, i + 2)
+            } else {
+                (10, i)
+            };
+            let mut v: u128 = 0;
+            let mut digits = 0;
+            while j < b.len() {
+                let d = match b[j] {
+                    b'_' => {
+                        j += 1;
+                        continue;
+                    }
+                    x @ b'0'..=b'9' => (x - b'0') as u32,
+                    x @ b'a'..=b'f' if radix == 16 => (x - b'a' + 10) as u32,
+                    x @ b'A'..=b'F' if radix == 16 => (x - b'A' + 10) as u32,
+                    _ => break,
+                };
+                if d >= radix {
+                    break;
+                }
+                v = v.saturating_mul(radix as u128).saturating_add(d as u128);
+                digits += 1;
+                j += 1;
+            }
+            if digits > 0 && v <= u64::MAX as u128 {
+                // the value, its low 32 / 24 / 16 bits
+                let v = v as u64;
+                for x in [v as u32, (v >> 32) as u32, (v as u32) & 0xff_ffff, (v as u32) & 0xffff] {
+                    if x > 0xff {
+                        out.insert(x);
+                    }
+                }
+            }
+            i = j.max(i + 1);
+        } else {
+            i += 1;
+        }
+    }
+}
+
+pub fn source_dictionary() -> &'static Vec<u32> {
+    DICT.get_or_init(|| {
+        let root = std::env::var("VERIF_REPO").unwrap_or_else(|_| "/repo".to_string());
+        let mut set: HashSet<u32> = HashSet::new();
+        let mut stack = vec![std::path::PathBuf::from(format!("{}/src", root))];
+        while let Some(dir) = stack.pop() {
+            let Ok(rd) = std::fs::read_dir(&dir) else { continue };
+            for e in rd.flatten() {
+                let p = e.path();
+                if p.is_dir() {
+                    stack.push(p);
+                } else if p.extension().map(|x| x == "rs").unwrap_or(false) {
+                    if let Ok(t) = std::fs::read_to_string(&p) {
+                        scan_literals(&t, &mut set);
+                    }
+                }
+            }
+        }
+        let mut v: Vec<u32> = set.into_iter().collect();
+        v.sort_unstable();
+        v
+    })
+}
+
+/// one dictionary value (or a neighbour of one); None if the dictionary is empty
+pub fn dict_value(rng: &mut Rng) -> Option<u32> {
+    let d = source_dictionary();
+    if d.is_empty() {
+        return None;
+    }
+    let v = d[rng.below(d.len() as u64) as usize];
+    Some(match rng.below(6) {
+        0 => v.wrapping_add(1),
+        1 => v.wrapping_sub(1),
+        _ => v,
+    })
+}
